@@ -419,6 +419,47 @@ func propC02(r *Run) {
 				}
 			}
 		}
+		// overlapping logins through one instance (two request handlers of a program that uses the
+		// library): each verdict is the one the reference gives for that file and that password,
+		// whatever the other call is doing with the instance's hashers at the same time
+		if r.Choose("overlapping-logins", 3) == 0 {
+			var files []string
+			for _, u := range sortedKeys(w.model) {
+				if _, _, ok := w.userFile(u); ok && validName(u) {
+					files = append(files, u)
+				}
+			}
+			if len(files) >= 2 {
+				x, y := files[r.Choose("overlap-x", len(files))], files[r.Choose("overlap-y", len(files))]
+				if x != y && w.model[x] != nil && w.model[y] != nil {
+					_, cx, _ := w.userFile(x)
+					_, cy, _ := w.userFile(y)
+					pwx, pwy := w.model[x].PW, w.model[x].PW // y is tried with x's password
+					if r.Choose("overlap-y-own-password", 3) == 0 {
+						pwy = w.model[y].PW
+					}
+					var okX, okY bool
+					d := w.dirs[0]
+					w.libYields = true
+					_, sw := w.interleaveReader(w.fs, func() {
+						defer func() { recover() }() //nolint: a crash is C02's business elsewhere
+						okX, _, _, _, _ = d.Authenticate(x, pwx)
+					}, func(*[]readerObs) {
+						defer func() { recover() }() //nolint
+						okY, _, _, _, _ = d.Authenticate(y, pwy)
+					})
+					w.libYields = false
+					r.Count("probe:overlapping-logins")
+					r.Logf("overlapping logins: %s -> %v || %s -> %v (%d context switches)", simrt.Q(x), okX, simrt.Q(y), okY, sw)
+					if okX && !RefVerifyLenient(w.sets, cx, pwx) {
+						r.Fail("tamper/accepted/overlapping-logins", "login of %s succeeded while another login was in progress on the same instance, although its file %s does not verify password %s", simrt.Q(x), simrt.Q(truncate(cx, 80)), simrt.Q(pwx))
+					}
+					if okY && !RefVerifyLenient(w.sets, cy, pwy) {
+						r.Fail("tamper/accepted/overlapping-logins", "login of %s succeeded while another login was in progress on the same instance, although its file %s does not verify password %s", simrt.Q(y), simrt.Q(truncate(cy, 80)), simrt.Q(pwy))
+					}
+				}
+			}
+		}
 		r.Steps += n
 		r.Sample(map[string]any{"config": cfg.Desc(), "corruptions": applied})
 	})
